@@ -22,7 +22,7 @@ CHUNK = 1
 
 
 def cases(tier, rng):
-    for i in range(24 if tier == "quick" else 200):
+    for i in range(48 if tier == "quick" else 200):
         yield {"seed": rng.getrandbits(32), "calls": 30 if tier == "quick" else 120, "cfg": i % len(gen.FILTER_GRID),
                "subprocess": tier != "quick" and i % 10 == 0, "nt": True}
 
